@@ -260,6 +260,9 @@ func (r *Run) Finish() int {
 	for _, c := range r.violClasses {
 		nviol += c
 	}
+	if r.Assumptions == nil {
+		r.Assumptions = []string{}
+	}
 	ev := map[string]any{
 		"property_id": r.Prop,
 		"tier":        r.Tier,
